@@ -2013,7 +2013,7 @@ func (s *sim) finishCall() {
 			if r.blk == nil {
 				continue
 			}
-			if r.blk.hash == b.hash {
+			if r.blk.hash == b.hash && !r.late {
 				servers[r.prov]++
 			}
 		}
@@ -2142,7 +2142,7 @@ func (s *sim) finishCall() {
 						if first < 0 {
 							first = i // earliest differing answer of any witness (whatever its height)
 						}
-						if r.prov == w && idx < 0 && r.blk.h == target.h {
+						if r.prov == w && idx < 0 && r.blk.h == target.h && !r.late {
 							idx = i
 						}
 					}
@@ -2226,7 +2226,7 @@ func (s *sim) finishCall() {
 			if r.prov == prim && (r.blk == nil || (r.reqH != 0 && r.blk.h != r.reqH)) {
 				primOK = false
 			}
-			if r.prov != prim && r.blk != nil && r.blk.key == target.key {
+			if r.prov != prim && r.blk != nil && !r.late && r.blk.key == target.key {
 				witness = true
 			}
 		}
